@@ -280,7 +280,7 @@ func ruleR32R33(c *Ctx) {
 		for i := 0; i < st.NumFields(); i++ {
 			f := st.Field(i)
 			if strings.Contains(strings.ToLower(f.Name()), "key") && !strings.Contains(strings.ToLower(f.Name()), "len") {
-				if _, isPtr := f.Type().Underlying().(*types.Pointer); !isPtr {
+				if !collectorFollows(f.Type(), 0) {
 					okFields, bad = false, f.Name()+" "+f.Type().String()
 				}
 			}
@@ -606,6 +606,39 @@ func (c *Ctx) inNodeGraph(st *ast.StructType) bool {
 		if same(tk.Named) {
 			return true
 		}
+	}
+	return false
+}
+
+// collectorFollows: a value of type t holds the address of its bytes in a form the garbage
+// collector traces – a pointer, a slice, a string, or a struct of such fields (a data pointer
+// next to its length) with no address hidden in a uintptr.
+func collectorFollows(t types.Type, depth int) bool {
+	if depth > 3 {
+		return false
+	}
+	switch x := t.Underlying().(type) {
+	case *types.Pointer, *types.Slice:
+		return true
+	case *types.Basic:
+		return x.Kind() == types.String || x.Kind() == types.UnsafePointer
+	case *types.Struct:
+		any := false
+		for i := 0; i < x.NumFields(); i++ {
+			ft := x.Field(i).Type()
+			if b, ok := ft.Underlying().(*types.Basic); ok {
+				if b.Kind() == types.Uintptr {
+					return false
+				}
+				if b.Kind() != types.String && b.Kind() != types.UnsafePointer {
+					continue
+				}
+			}
+			if collectorFollows(ft, depth+1) {
+				any = true
+			}
+		}
+		return any
 	}
 	return false
 }
